@@ -380,6 +380,21 @@ def run_known_replays(mod, prop, tier, seed, known):
 
 
 def run_property(modname, tier, seed):
+    """Every temporary file of a run (workers included: they exit without running atexit handlers) lives under one
+    directory that the parent removes."""
+    import shutil
+    import tempfile
+    rundir = tempfile.mkdtemp(prefix="vf_run_")
+    old = tempfile.tempdir
+    tempfile.tempdir = rundir
+    try:
+        return _run_property(modname, tier, seed)
+    finally:
+        tempfile.tempdir = old
+        shutil.rmtree(rundir, ignore_errors=True)
+
+
+def _run_property(modname, tier, seed):
     import importlib
 
     t0 = time.time()
